@@ -116,6 +116,8 @@ _add("C05", _more("c05_chain_resolves", "follow_fuel_enough", "c05_backstop", "c
 _add("C01", _more("c05_chain_resolves", "i3_all_histories", "c12_flush_first"))
 _add("C07", _more("c05_backstop_invalid", "c05_cleanup_advance"))
 _add("C18", _more("c05_chain_resolves"))
+_add("C18", ["Sx.Ck.live_cookie_is_template", "Sx.Ck.live_cookie_lifetime", "Sx.Ck.deletion_cookie_expired", "Sx.Ck.cookieOut_isCookie",
+             "Sx.Ck.dead_iff_expired_attrs"])
 
 
 def _glob(*names):
